@@ -189,6 +189,15 @@ Theorem C14_persisted_staple_reused_after_restart : forall s c m e now b r m' e'
 Proof. exact persisted_staple_reused_after_restart. Qed.
 Print Assumptions C14_persisted_staple_reused_after_restart.
 
+(** F — the cross-process monitor [own_reuse] (the staple certmagic persisted for a certificate
+    earlier, wherever it put it, must spare the responder a request when that certificate is
+    cached again while it is fresh) holds of the model, because the model loads for [c] exactly
+    what it persisted for [c] *)
+Theorem C14_own_persisted_staple_reused : forall s c m dis e now,
+  own_reuse (sget (c_id c) (stor s)) c dis e now (snd (step s (OCache c m dis e now))) = true.
+Proof. exact own_reuse_holds. Qed.
+Print Assumptions C14_own_persisted_staple_reused.
+
 (** F — a corrupt persisted staple (unparseable, or not verifiable against the issuer in the
     chain) is deleted; what may take its place is only a verified Good response for this
     certificate *)
